@@ -1,3 +1,114 @@
 import Nv.OracleIO
-/-! oracle_c07 — stub (model not built yet): answers `bad-op` to every line. -/
-def main : IO Unit := Nv.oracleMain (fun (_ : Unit) _ => ((), "bad-op")) ()
+import Nv.Model.C07
+import Nv.Gen.C07
+/-!
+oracle_c07 — line protocol (numbers decimal, signed 64-bit):
+  `cfg <epochMs> <nodeBits:8|9|10> <nodeAtLowest:0|1>`  (re)initialise                    → `ok`
+  `fields <id>`        IDFields                                                         → `<time> <node> <step>`
+  `parse <id>`         IDParse                                                          → `<ms> <node> <step>`
+  `parsex <id>`        IDParseEx (civil time in Asia/Shanghai)                          → `<Y> <M> <D> <h> <m> <s> <ms> <node> <step>` | `pre-2000`
+  `range <sec> <ns>`   TimeIDRange(time.Unix(sec, ns)), 0 ≤ ns < 10^9                    → `<min> <max>`
+  `between <b> <bns> <e> <ens>`  TimeBetweenID(time.Unix(b,bns), time.Unix(e,ens))       → `<min> <max>`
+  `cn <id>`            CnStyle                                                          → 24 characters | `pre-2000`
+  `from <text>`        FromChStyle                                                      → `<id>` | `err` | `pre-2000`
+  `rt <id>`            FromChStyle(CnStyle(id))                                         → `<text> <id'>` | `pre-2000`
+  `cmp <a> <b>`        order of (timestamp, remaining bits) pairs                       → `-1` | `0` | `1`
+`pre-2000`: the instant is outside the fixed-offset part of the zone the calendar models.
+The accessor configuration is the one regenerated from the source (`Nv.Gen.C07.cfg`).
+-/
+open Nv Nv.C07 Nv.C06
+
+structure OState where
+  ready : Bool := false
+  epoch : BitVec 64 := 0#64
+  nb : BitVec 8 := 10#8
+  nal : Bool := false
+
+def isDec (s : String) : Bool :=
+  match s.toList with
+  | '-' :: d :: ds => (d :: ds).all Char.isDigit
+  | d :: ds => (d :: ds).all Char.isDigit
+  | [] => false
+
+def parseI64 (s : String) : Option (BitVec 64) :=
+  if !isDec s then none else
+  match s.toInt? with
+  | some i => if decide (-9223372036854775808 ≤ i) && decide (i ≤ 9223372036854775807) then some (BitVec.ofInt 64 i) else none
+  | none => none
+
+/-- a nanosecond part `0 ≤ ns < 10^9` (so that `time.Unix(sec, ns).Unix() = sec`) -/
+def parseNs (s : String) : Bool :=
+  isDec s && !(s.startsWith "-") && (match s.toNat? with | some n => decide (n < 1000000000) | none => false)
+
+def showId (b : BitVec 64) : String := toString b.toInt
+
+def ms2000 : Int := 946684800000
+
+def show3 (f : BitVec 64 × BitVec 64 × BitVec 64) : String := s!"{showId f.1} {showId f.2.1} {showId f.2.2}"
+def show2 (f : BitVec 64 × BitVec 64) : String := s!"{showId f.1} {showId f.2}"
+
+def step (s : OState) (line : String) : OState × String :=
+  let c := Nv.Gen.C07.cfg
+  match words line with
+  | ["cfg", e, nb, nal] =>
+    match parseI64 e, nb, nal with
+    | some e, nb, "0" | some e, nb, "1" =>
+      if nb == "8" || nb == "9" || nb == "10" then
+        ({ ready := true, epoch := e, nb := BitVec.ofNat 8 nb.toNat!, nal := nal == "1" }, "ok")
+      else (s, "bad-op")
+    | _, _, _ => (s, "bad-op")
+  | _ =>
+  if !s.ready then (s, "bad-op") else
+  match words line with
+  | ["fields", id] =>
+    match parseI64 id with
+    | some id => (s, show3 (idFields id s.nb s.nal))
+    | none => (s, "bad-op")
+  | ["parse", id] =>
+    match parseI64 id with
+    | some id => (s, show3 (idParse id s.nb s.nal s.epoch))
+    | none => (s, "bad-op")
+  | ["parsex", id] =>
+    match parseI64 id with
+    | some id =>
+      let p := idParse id s.nb s.nal s.epoch
+      if p.1.toInt < ms2000 then (s, "pre-2000") else
+      let c := shanghai.toCivil p.1.toInt
+      (s, s!"{c.year} {c.month} {c.day} {c.hour} {c.minute} {c.second} {c.milli} {showId p.2.1} {showId p.2.2}")
+    | none => (s, "bad-op")
+  | ["range", sec, ns] =>
+    match parseI64 sec, parseNs ns with
+    | some sec, true => (s, show2 (timeIDRange s.nb s.epoch sec))
+    | _, _ => (s, "bad-op")
+  | ["between", b, bns, e, ens] =>
+    match parseI64 b, parseNs bns, parseI64 e, parseNs ens with
+    | some b, true, some e, true => (s, show2 (timeBetweenID s.nb s.epoch b e))
+    | _, _, _, _ => (s, "bad-op")
+  | ["cn", id] =>
+    match parseI64 id with
+    | some id =>
+      if (cnMs s.nb s.epoch id).toInt < ms2000 then (s, "pre-2000")
+      else (s, String.ofList (cnStyle shanghai s.nb s.epoch id))
+    | none => (s, "bad-op")
+  | ["from", v] =>
+    let cs := v.toList
+    if cs.length == 24 && (match atoi (cs.take 4) with | some y => decide (y < 2000) | none => false) then (s, "pre-2000")
+    else match fromChStyle c shanghai s.nb s.epoch cs with
+      | some id => (s, showId id)
+      | none => (s, "err")
+  | ["rt", id] =>
+    match parseI64 id with
+    | some id =>
+      if (cnMs s.nb s.epoch id).toInt < ms2000 then (s, "pre-2000") else
+      let v := cnStyle shanghai s.nb s.epoch id
+      match fromChStyle c shanghai s.nb s.epoch v with
+      | some id' => (s, s!"{String.ofList v} {showId id'}")
+      | none => (s, s!"{String.ofList v} err")
+    | none => (s, "bad-op")
+  | ["cmp", a, b] =>
+    match parseI64 a, parseI64 b with
+    | some a, some b => (s, toString (lexCmp s.nb s.nal a b))
+    | _, _ => (s, "bad-op")
+  | _ => (s, "bad-op")
+
+def main : IO Unit := oracleMain step {}
